@@ -138,7 +138,7 @@ class Frame(object):
 
 class Interp(object):
     MAX_DEPTH = 14
-    MAX_PATHS = 60000
+    MAX_PATHS = 20000
 
     def __init__(self, program, stubs=None, unknown_iters=(0, 1, 2), while_bound=3,
                  inline_exc_init=False):
@@ -161,6 +161,7 @@ class Interp(object):
         self.dirty = None                  # first effect event on this path (for ordering rules)
         self.effect_filter = None          # callable(kind, data) -> bool: counts as effect
         self.class_attr_objs = {}
+        self.budget_exceeded = False
 
     # -- path exploration --------------------------------------------------
     def explore(self, thunk):
@@ -184,7 +185,10 @@ class Interp(object):
             yield path
             n += 1
             if n > self.MAX_PATHS:
-                raise AnalysisError('path budget exceeded (%d paths)' % n)
+                # callers must consult budget_exceeded: an incomplete
+                # exploration can confirm a violation but never discharge
+                self.budget_exceeded = True
+                return
             ch = list(self.choices)
             while ch and ch[-1][0] >= ch[-1][1] - 1:
                 ch.pop()
@@ -250,7 +254,7 @@ class Interp(object):
         self.functions_seen.add(fi)
         fr = Frame(fi, self_cls)
         self.bind_params(fr, fi, args, kwargs, node)
-        is_gen = any(isinstance(n, (ast.Yield, ast.YieldFrom)) for n in ast.walk(fi.node))
+        is_gen = _is_generator(fi)
         self.frames.append(fr)
         self.emit('enter', node or fi.node, {'callee': fi})
         try:
@@ -411,6 +415,10 @@ class Interp(object):
 
     def st_While(self, s):
         n = 0
+        inj = getattr(self, 'loop_inject', None)
+        if inj is not None and s is inj['node'] and not inj.get('done'):
+            inj['done'] = True
+            self.frames[-1].locals.update(inj['values'](self))
         while True:
             c = self.truth(self.eval(s.test), s.test)
             if not c:
@@ -884,6 +892,8 @@ class Interp(object):
             return c == 0
         if isinstance(v, (AObj, AStream, ExcValue, BoundMethod, Builtin, ClassInfo, FunctionInfo)):
             return True
+        if type(v).__name__ == 'AMatch':
+            return True
         if isinstance(v, tuple):
             return bool(v)
         if isinstance(v, Unk):
@@ -930,6 +940,14 @@ def _as_load(t):
 
 
 _LOCALS_CACHE = {}
+_GEN_CACHE = {}
+
+
+def _is_generator(fi):
+    k = id(fi.node)
+    if k not in _GEN_CACHE:
+        _GEN_CACHE[k] = any(isinstance(n, (ast.Yield, ast.YieldFrom)) for n in ast.walk(fi.node))
+    return _GEN_CACHE[k]
 
 
 def _local_names(fi):
